@@ -27,6 +27,9 @@ class LinkSpec:
         self.fail_reporter = 'driver'  # 'driver' (driver-owned thread) | 'sender' (inside send_packet)
         self.fail_msg = 'simulated link failure'
         self.connect_error = None     # exception instance raised by connect()
+        self.fail_in_connect = None   # link error reported while connect() is still running: 'sync' (connecting
+        #                               thread) | 'thread' (driver thread, before connect returns) | 'race' (driver
+        #                               thread, racing with the return of connect)
         self.tx = []                  # (t, session, header, data, delivered)
         self.rx = []                  # (t, session, header, data)
         self.sessions = 0
@@ -56,6 +59,7 @@ class _DriverThread(threading.Thread):
         self.stop_flag = False
         self.fault = None
         self.cb = link.link_error_callback
+        self.delivered = ds.Event()
 
     def run(self):
         while True:
@@ -65,6 +69,7 @@ class _DriverThread(threading.Thread):
                 msg, self.fault = self.fault, None
                 if self.cb is not None:
                     self.cb(msg)
+                self.delivered.set()
             if self.stop_flag:
                 return
 
@@ -103,6 +108,19 @@ class SimLinkDriver(CRTPDriver):
         self._wake = ds.Event()
         self._thread = _DriverThread(self)
         self._thread.start()
+        self.dead = False
+        if spec.fail_in_connect is not None:
+            # the link dies before connect() has returned (e.g. the dongle is unplugged, or the driver thread
+            # gives up, while the caller has not yet got the driver object back)
+            spec.faults_fired += 1
+            self.dead = True
+            if spec.fail_in_connect == 'sync':
+                link_error_callback(spec.fail_msg)
+            else:
+                self._thread.fault = spec.fail_msg
+                self._thread.kick.set()
+                if spec.fail_in_connect == 'thread':
+                    self._thread.delivered.wait()
 
     # ------------------------------------------------------------------
     def _now(self):
@@ -130,6 +148,8 @@ class SimLinkDriver(CRTPDriver):
         header, data = pk.header, bytes(pk.data)
         if self.closed:
             spec.tx_after_close.append((self._now(), self.session, header, data))
+            return
+        if getattr(self, 'dead', False):
             return
         spec.n_tx += 1
         spec.sess_tx += 1
@@ -160,7 +180,7 @@ class SimLinkDriver(CRTPDriver):
         if self.spec is not None and self.spec.dispatching is threading.current_thread():
             self.spec.dispatching = None
         while True:
-            if self.closed:
+            if self.closed or getattr(self, 'dead', False):
                 if wait > 0 and s is not None:
                     rem = deadline - s.now
                     if rem > 0:
